@@ -110,7 +110,7 @@ def dfs(ctx, role, depth, prefix, model_factory, seen_cells, eager_variants=Fals
         alphabet += tick_alphabet(model)
     for act in alphabet:
         variants = [act]
-        if eager_variants and act['a'] in H.NET and prefix:
+        if eager_variants and act['a'] in H.NET:
             variants.append(dict(act, eager=True))
         for v in variants:
             dfs(ctx, role, depth - 1, prefix + [v], model_factory, seen_cells, eager_variants)
@@ -194,7 +194,7 @@ def walk(draw, max_len=30):
                     act['spec'] = draw(g.abort_pdu)
             # (two complete messages inside ONE P-DATA-TF are not generated: whether PS3.8 Annex E allows
             #  that is unclear and the library delivers only the first - recorded as an observation)
-            if hist and draw(st.integers(0, 2)) == 0:
+            if draw(st.integers(0, 2)) == 0:
                 act['eager'] = True
         else:
             if m.artim_running():
@@ -296,7 +296,7 @@ def run(ctx):
     for role in ('requestor', 'acceptor'):
         for name, prefix in sorted(prefixes(role).items()):
             for act in alphabet_after(role, prefix):
-                variants = [act] + ([dict(act, eager=True)] if act['a'] in H.NET and prefix else [])
+                variants = [act] + ([dict(act, eager=True)] if act['a'] in H.NET else [])
                 for v in variants:
                     jobs.append({'role': role, 'depth': depth - 1, 'prefix': prefix + [v], 'eager': True})
     parallel(ctx, run_dfs, jobs)
